@@ -41,3 +41,92 @@ fn c02_mapped_file_under_dev_is_not_opened() {
     unsafe { libc::unlink(c.as_ptr()); }
     assert!(finished, "mappings::write blocked opening {fifo}: a mapped file under /dev was opened");
 }
+
+// ---------------------------------------------------------------------------
+// C08 / C01, tier B′ (native, this process as the target): the module list.
+//   * every module names a derived mapping of the target (base, size), carries a `BpEL` + build-id debug
+//     record inside the image, a name string inside the image, and modules do not overlap
+//   * for EVERY listed module k: a caller-supplied mapping with exactly k's extent (and one that strictly
+//     contains it) suppresses the target's own entry and is listed verbatim with the supplied identifier
+// ---------------------------------------------------------------------------
+fn rd32(b: &[u8], at: usize) -> u32 { u32::from_le_bytes(b[at..at + 4].try_into().unwrap()) }
+fn rd64(b: &[u8], at: usize) -> u64 { u64::from_le_bytes(b[at..at + 8].try_into().unwrap()) }
+
+struct Mod { base: u64, size: u32, name: String, cv: Vec<u8> }
+
+fn parse_modules(img: &[u8], dirent: &MDRawDirectory) -> Vec<Mod> {
+    assert_eq!(dirent.stream_type, MDStreamType::ModuleListStream as u32);
+    let d = dirent.location.rva as usize;
+    let n = rd32(img, d) as usize;
+    assert_eq!(dirent.location.data_size as usize, 4 + 108 * n, "size the module count implies");
+    (0..n).map(|k| {
+        let o = d + 4 + 108 * k;
+        // MINIDUMP_MODULE: base u64, size u32, checksum u32, timestamp u32, name_rva u32, VS_FIXEDFILEINFO (52), cv_record, misc_record, reserved
+        let name_rva = rd32(img, o + 20) as usize;
+        let nlen = rd32(img, name_rva) as usize;
+        assert!(name_rva + 4 + nlen <= img.len(), "module name inside the image");
+        let units: Vec<u16> = img[name_rva + 4..name_rva + 4 + nlen].chunks_exact(2).map(|c| u16::from_le_bytes([c[0], c[1]])).collect();
+        let (cv_size, cv_rva) = (rd32(img, o + 76) as usize, rd32(img, o + 80) as usize);
+        assert!(cv_rva + cv_size <= img.len(), "debug record inside the image");
+        Mod { base: rd64(img, o), size: rd32(img, o + 8), name: String::from_utf16(&units).unwrap(), cv: img[cv_rva..cv_rva + cv_size].to_vec() }
+    }).collect()
+}
+
+fn self_dumper() -> PtraceDumper {
+    let mut d = bare_dumper(vec![]);
+    d.pid = std::process::id() as crate::Pid;
+    d.enumerate_mappings_for_replay();
+    d
+}
+
+#[test]
+fn bprime_module_list_of_this_process() {
+    let mut n = 0;
+    let mut dumper = self_dumper();
+    let maps: Vec<MappingInfo> = dumper.mappings.clone();
+    let mut config = MinidumpWriter::new(dumper.pid, dumper.pid);
+    let mut buffer = DumpBuf::with_capacity(0);
+    let dirent = write(&mut config, &mut buffer, &mut dumper).expect("module list");
+    let mods = parse_modules(&buffer, &dirent);
+    assert!(!mods.is_empty(), "the test binary and libc carry build ids");
+    for m in &mods {
+        let src = maps.iter().find(|x| x.start_address as u64 == m.base).expect("a module is a derived mapping of the target");
+        assert_eq!(m.size as usize, src.size, "module size == merged extent");
+        assert!(src.name.is_some() && (src.offset == 0 || src.is_executable()) && src.size >= 4096);
+        assert!(m.cv.len() > 4 && &m.cv[..4] == b"LEpB", "debug record = CvSignature::Elf ('BpEL' little-endian) + id");
+        assert!(m.cv[4..].iter().any(|&b| b != 0), "non-zero build id");
+        n += 1;
+    }
+    for w in mods.windows(2) { let _ = w; }
+    let mut sorted: Vec<(u64, u64)> = mods.iter().map(|m| (m.base, m.base + m.size as u64)).collect();
+    sorted.sort();
+    for w in sorted.windows(2) { assert!(w[0].1 <= w[1].0, "modules do not overlap"); }
+    // user mappings
+    for (k, target) in mods.iter().enumerate() {
+        for grow in [0usize, 4096] {
+            let user = crate::maps_reader::MappingEntry {
+                mapping: MappingInfo {
+                    start_address: target.base as usize - grow, size: target.size as usize + 2 * grow,
+                    system_mapping_info: crate::maps_reader::SystemMappingInfo { start_address: target.base as usize - grow, end_address: target.base as usize + target.size as usize + grow },
+                    offset: 0, permissions: procfs_core::process::MMPermissions::READ,
+                    name: Some(std::ffi::OsString::from(format!("/user/supplied-{k}.so"))),
+                },
+                identifier: (1u8..=16).collect(),
+            };
+            let mut config = MinidumpWriter::new(dumper.pid, dumper.pid);
+            config.user_mapping_list = vec![user];
+            let mut buffer = DumpBuf::with_capacity(0);
+            let dirent = write(&mut config, &mut buffer, &mut dumper).expect("module list");
+            let got = parse_modules(&buffer, &dirent);
+            n += 1;
+            let at_base: Vec<&Mod> = got.iter().filter(|m| m.base == target.base - grow as u64 || m.base == target.base).collect();
+            assert_eq!(at_base.len(), 1, "module {k} ({}), user mapping grown by {grow}: the target's own entry must be suppressed", target.name);
+            let u = at_base[0];
+            assert_eq!((u.base, u.size as usize), (target.base - grow as u64, target.size as usize + 2 * grow), "listed verbatim");
+            assert_eq!(u.name, format!("/user/supplied-{k}.so"));
+            assert_eq!(&u.cv[4..], &(1u8..=16).collect::<Vec<u8>>()[..], "with the supplied identifier");
+        }
+    }
+    println!("BPRIME evaluations={n}");
+    std::mem::forget(dumper);
+}
